@@ -1037,6 +1037,9 @@ func (ex *Exec) evCall(x *SCall, env *Env) Val {
 		} else if env.fr != nil && env.fr.fn != nil {
 			fnKey = env.fr.fn.String()
 		}
+		if env.siteFn == "" && ex.top != nil && fnKey == ex.top.String() && !ex.siteExists(sl.V, n) {
+			specFail("calls: no call site %s#%d in %s", sl.V, n, ex.top)
+		}
 		return TV(ex.heapIn(env, siteHeap(fnKey, sl.V, n), SortInt), intT)
 	case "lasterr":
 		// lasterr("callee", k): the error returned by the latest execution of the
@@ -1051,6 +1054,9 @@ func (ex *Exec) evCall(x *SCall, env *Env) Val {
 		owner := ex.top.String()
 		if env.siteFn != "" {
 			owner = env.siteFn
+		}
+		if env.siteFn == "" && !ex.siteExists(sl.V, n) {
+			specFail("lasterr: no call site %s#%d in %s", sl.V, n, ex.top)
 		}
 		return TV(ex.heapIn(env, siteErrHeap(owner, sl.V, n), SortIface), types.Universe.Lookup("error").Type())
 	case "lastret":
@@ -1069,6 +1075,25 @@ func (ex *Exec) evCall(x *SCall, env *Env) Val {
 			specFail("lastret: no call site %s#%d with a result %d in %s", sl.V, kn, in, ex.top)
 		}
 		return TV(ex.heapIn(env, fmt.Sprintf("%s.%d", siteRetHeap(ex.top.String(), sl.V, kn), in), sortOf(rt)), rt)
+	case "lastbytes":
+		// lastbytes("callee", k, i): the content, at the moment of the return, of
+		// the []byte result i of the latest execution of that call site
+		sl, ok := x.Args[0].(*SStr)
+		kk, ok2 := x.Args[1].(*SInt)
+		ii, ok3 := x.Args[2].(*SInt)
+		if !ok || !ok2 || !ok3 || ex.top == nil {
+			specFail("lastbytes(\"callee\", k, i)")
+		}
+		kn, _ := strconv.Atoi(kk.V)
+		in, _ := strconv.Atoi(ii.V)
+		rt := ex.siteResultType(sl.V, kn, in)
+		if rt == nil {
+			specFail("lastbytes: no call site %s#%d with a result %d in %s", sl.V, kn, in, ex.top)
+		}
+		if st, ok := rt.Underlying().(*types.Slice); !ok || sortOf(st.Elem()) != SortInt {
+			specFail("lastbytes: result %d of %s#%d is not a byte slice", in, sl.V, kn)
+		}
+		return TV(ex.heapIn(env, fmt.Sprintf("%s.%d.bytes", siteRetHeap(ex.top.String(), sl.V, kn), in), SortBytes), types.Typ[types.String])
 	case "structval":
 		// the struct value behind an immutable package-level pointer variable
 		v := arg(0)
